@@ -315,6 +315,39 @@ def cargo_build():
     return True, "\n".join(logs)
 
 
+class HarnessCrash(RuntimeError):
+    """The harness process died (abort, signal) instead of reporting an observation: `case` is the first case
+    that makes it die when run on its own prefix."""
+    def __init__(self, profile, family, rc, case, msg):
+        super().__init__(f"harness {profile} {family} failed rc={rc}: {msg}")
+        self.profile, self.family, self.rc, self.case, self.msg = profile, family, rc, case, msg
+
+
+def find_crash(exe, family, lines, workdir, timeout=120):
+    """Bisects for the shortest prefix of `lines` on which the harness dies; returns its last case (or None)."""
+    import subprocess, tempfile
+    def dies(k):
+        cf = os.path.join(workdir, f"crash_{family}.cases")
+        with open(cf, "w") as f:
+            f.write("\n".join(lines[:k]) + "\n")
+        try:
+            r = subprocess.run([exe, family, cf, cf + ".out"], stdout=subprocess.PIPE, stderr=subprocess.STDOUT, timeout=timeout)
+            return r.returncode != 0
+        except subprocess.TimeoutExpired:
+            return True
+    if not lines or not dies(len(lines)):
+        return None
+    lo, hi = 0, len(lines)          # dies(hi), not dies(lo)
+    while hi - lo > 1:
+        mid = (lo + hi) // 2
+        if dies(mid):
+            hi = mid
+        else:
+            lo = mid
+    # prefer the case alone if it dies alone (independent of what ran before)
+    return lines[hi - 1]
+
+
 def harness_run(profile, family, casefile, outfile, timeout=1200, jobs=8):
     """Runs the harness on the case file; large files are split over `jobs` processes (cases are independent)."""
     exe = os.path.join(TARGET, profile, "wp_harness")
@@ -322,6 +355,9 @@ def harness_run(profile, family, casefile, outfile, timeout=1200, jobs=8):
     if len(lines) < 64 or jobs <= 1:
         rc, out = sh([exe, family, casefile, outfile], timeout)
         if rc != 0:
+            bad = find_crash(exe, family, lines, os.path.dirname(outfile)) if rc not in (2, 124) else None
+            if bad is not None:
+                raise HarnessCrash(profile, family, rc, bad, out[-500:])
             raise RuntimeError(f"harness {profile} {family} failed rc={rc}: {out[-2000:]}")
         with open(outfile) as f:
             return [json.loads(l) for l in f if l.strip()]
@@ -344,6 +380,13 @@ def harness_run(profile, family, casefile, outfile, timeout=1200, jobs=8):
             pr.kill()
             raise RuntimeError(f"harness {profile} {family} timed out")
         if pr.returncode != 0:
+            for _cf, _of, other in parts:
+                if other.poll() is None:
+                    other.kill()
+            chunk = [l for l in open(cf).read().split("\n") if l.strip()]
+            bad = find_crash(exe, family, chunk, os.path.dirname(outfile)) if pr.returncode != 2 else None
+            if bad is not None:
+                raise HarnessCrash(profile, family, pr.returncode, bad, out.decode(errors='replace')[-500:])
             raise RuntimeError(f"harness {profile} {family} failed rc={pr.returncode}: {out.decode(errors='replace')[-2000:]}")
         with open(of) as f:
             res += [json.loads(l) for l in f if l.strip()]
